@@ -173,7 +173,7 @@ import sys
 SIZE_MAX = 2**64 - 1
 U32_MAX = 2**32 - 1
 U64_MAX = 2**64 - 1
-LEN_MAX = SIZE_MAX
+LEN_MAX = SIZE_MAX - 1      # SIZE_MAX is the error value of the module: derLDec refuses it and (since fix 'derLEnc: do not encode the length SIZE_MAX') so does derLEnc
 
 # der.h: a bit string whose length is not a multiple of 8 "предварительно
 # дополняется нулями ... в младших битах последнего октета".  A DER code with
@@ -284,7 +284,7 @@ def der_t_enc(tag):
 # =============================================================================
 
 def der_l_enc(length):
-    if not isinstance(length, int) or length < 0 or length > SIZE_MAX:
+    if not isinstance(length, int) or length < 0 or length > LEN_MAX:
         return None
     if length < 128:
         return bytes([length])
